@@ -1,11 +1,13 @@
 package props
 
 import (
+	"astverif/crc"
 	"astverif/crcgate"
 	"astverif/demuxrules"
 	"astverif/layout"
 	"astverif/lin"
 	"astverif/ownership"
+	"astverif/report"
 	"astverif/tables"
 	"go/types"
 
@@ -71,6 +73,15 @@ func c13(c *Ctx) {
 	// where a section and its CRC_32 end (section_length, CRC only for the table ids that carry one — a TOT has
 	// section_syntax_indicator 0 and still ends with a CRC_32): the input-side gate rules of C09
 	crcgate.InputGate(c.P, r)
+	// "the PAT and PMT sections the library writes are, byte for byte, the reference encoding": that includes the CRC_32 of
+	// EVERY section of a unit — the running checksum starts at 0xFFFFFFFF for each section, is updated only by the write
+	// callback and is emitted as it stands (C09d, and the writer facts F6 of the CRC proof)
+	crcgate.OutputSide(c.P, r)
+	{
+		tmp := report.New("tmp", c.Tier, "other")
+		crc.Prove(c.P, tmp)
+		r.Floor("F6", "writer/parser facts of the CRC proof", importRules(r, tmp, "F6"), 8)
+	}
 	// "any BCD start time and duration": the EIT start_time / duration and the TOT UTC_time are opaque 40/24-bit fields in the
 	// reference encodings above; their values are decided by the decode rules of C15 (Annex C date formulas, BCD digits,
 	// float64 robustness)
